@@ -161,7 +161,17 @@ def spellings(rng, rel):
         lambda: "/../rootx/sib.gmi",
         lambda: "/" + "/".join(segs) + "/../../outside/secret.txt",
         lambda: "/%ff" + base,
+        # an encoded slash next to a dot segment: one segment on the wire, two after decoding
+        lambda: "/zz/..%2f" + "/".join(segs),
+        lambda: "/zz/%2e%2e%2F" + "%2f".join(segs),
+        lambda: "/" + "/".join(segs[:-1] + ["zz%2f..", segs[-1]]) if segs else "/zz%2f..",
     ]
     for _ in range(3):
         out.append(rng.choice(muts)())
     return out
+
+def encoded_slash_spellings(rel):
+    """spellings in which a percent-encoded slash sits next to a dot segment (always offered to the C05 check)"""
+    segs = comps(rel)
+    tail = "/".join(segs)
+    return ["/zz/..%2f" + tail, "/zz/%2e%2e%2F" + tail, "/zz%2f../" + tail]
